@@ -83,16 +83,17 @@ def mods : P Mods
     | _ => none
   | [] => none
 
-/-- The CFG token is what the harness PROBED on the tree (kept in the op line as evidence).  Every switch whose fix has
-    landed in /repo is PINNED to the fixed behaviour here — slice path (489851f), record paths (12b24c0), intersection
-    path, overwrite pre-pass (49e6e91), Object.Required (75cf747) — so that a tree that behaves the legacy way again
-    is reported (impl ≠ model); the legacy variants live on only in their witness theorems.  Only `lazyWrap`, whose
-    finding is still open, follows the probe. -/
+/-- The CFG token is what the harness PROBED on the tree (kept in the op line as evidence only).  EVERY switch is PINNED to
+    the behaviour of /repo HEAD — slice path (489851f), record paths (12b24c0), intersection path, overwrite pre-pass
+    (49e6e91), Object.Required (75cf747) to the fixed behaviour; `lazyWrap` to `false`: `schemaWrapper.Parse` still does not
+    ask a target whose result type it does not list (open finding `target-never-asked-result-type-unsupported:lazy`) — so
+    that a tree that behaves the other way is reported (impl ≠ model); the other variants live on only in witness
+    theorems.  When the lazy finding is fixed in /repo the pin moves to `true` together with the open→fixed line. -/
 def cfgBits (t : String) : Option Cfg :=
   match t.toList with
-  | _ :: _ :: _ :: d :: rest =>
+  | _ :: _ :: _ :: _ :: rest =>
     if rest.length ≤ 2 then
-      some { slicePrepend := true, recordKeyPath := true, interPath := true, lazyWrap := d == '1',
+      some { slicePrepend := true, recordKeyPath := true, interPath := true, lazyWrap := false,
              owValidates := true, reqFix := true }
     else none
   | _ => none
